@@ -375,3 +375,7 @@ impl Notifier {
         }
     }
 }
+
+#[cfg(kani)]
+#[path = "/verif/kani/autoreload.rs"]
+mod verif_kani;
